@@ -144,8 +144,7 @@ void run_op(Op const &op)
     break;
   case 12: // BUF_RELEASE name
     api(opc, [&]() -> V {
-      if(a0 < 0 || static_cast<size_t>(a0) >= held.size()) bad_case(101);
-      held[a0].reset();
+      if(a0 >= 0 && static_cast<size_t>(a0) < held.size()) held[a0].reset();
       return {};
     });
     break;
